@@ -19,6 +19,7 @@
 package bfe_spdy
 
 import (
+	"bytes"
 	"compress/zlib"
 	"encoding/binary"
 	"fmt"
@@ -215,6 +216,20 @@ func (f *Framer) parseControlFrame(version uint16, frameType ControlFrameType) (
 	return cframe, nil
 }
 
+// readBlockBytes reads exactly length bytes from r. The buffer grows with the
+// bytes actually present, so a bogus length prefix cannot force a huge allocation.
+func readBlockBytes(r io.Reader, length uint32) ([]byte, error) {
+	var buf bytes.Buffer
+	n, err := io.CopyN(&buf, r, int64(length))
+	if err != nil {
+		if err == io.EOF && n > 0 {
+			err = io.ErrUnexpectedEOF
+		}
+		return nil, err
+	}
+	return buf.Bytes(), nil
+}
+
 func parseHeaderValueBlock(r io.Reader, streamId StreamId) (http.Header, uint32, error) {
 	headerLen := uint32(0) // length of header decompressed
 
@@ -234,8 +249,8 @@ func parseHeaderValueBlock(r io.Reader, streamId StreamId) (http.Header, uint32,
 			return nil, 0, err
 		}
 		headerLen += length
-		nameBytes := make([]byte, length)
-		if _, err := io.ReadFull(r, nameBytes); err != nil {
+		nameBytes, err := readBlockBytes(r, length)
+		if err != nil {
 			return nil, 0, err
 		}
 		name := string(nameBytes)
@@ -250,8 +265,8 @@ func parseHeaderValueBlock(r io.Reader, streamId StreamId) (http.Header, uint32,
 			return nil, 0, err
 		}
 		headerLen += length
-		value := make([]byte, length)
-		if _, err := io.ReadFull(r, value); err != nil {
+		value, err := readBlockBytes(r, length)
+		if err != nil {
 			return nil, 0, err
 		}
 		valueList := strings.Split(string(value), headerValueSeparator)
